@@ -22,7 +22,7 @@ type GenTx struct {
 
 // Weights selects the transaction mix of a scenario.
 type Weights struct {
-	Transfer, Contract, Vote, Candidate, Asset, Multisig, Box, GasPayer, Decoy int
+	Transfer, Contract, Vote, Candidate, Asset, Multisig, Box, GasPayer, Decoy, Reward int
 }
 
 var DefaultWeights = Weights{Transfer: 5, Contract: 5, Vote: 2, Candidate: 2, Asset: 0, Multisig: 0, Box: 2, GasPayer: 1, Decoy: 2}
@@ -38,14 +38,15 @@ type AssetInfo struct {
 
 // TxGen draws transactions over a world, looking at the chain state where that makes the draw more interesting.
 type TxGen struct {
-	W          *World
-	Weights    Weights
-	Contracts  []common.Address // addresses contracts were (or would have been) deployed to
-	Candidates []*Actor         // users who sent a register transaction
-	Assets     []*AssetInfo
-	Multisig   map[common.Address][]SignerSpec // accounts known to be multi-signature
-	nonce      int
-	NoBoundary bool // do not aim amounts at the 200 LEMO vote boundary
+	W           *World
+	Weights     Weights
+	Contracts   []common.Address // addresses contracts were (or would have been) deployed to
+	Candidates  []*Actor         // users who sent a register transaction
+	Assets      []*AssetInfo
+	Multisig    map[common.Address][]SignerSpec // accounts known to be multi-signature
+	nonce       int
+	NoBoundary  bool // do not aim amounts at the 200 LEMO vote boundary
+	DeputiesAct bool // the deputies' miner and income accounts are funded and send transactions too (they vote, receive rewards)
 }
 
 func NewTxGen(w *World, weights Weights) *TxGen {
@@ -62,7 +63,13 @@ func (g *TxGen) next() string {
 
 // payers: actors that hold money (founder, users).
 func (g *TxGen) actors() []*Actor {
-	return append([]*Actor{g.W.Founder}, g.W.Users...)
+	res := append([]*Actor{g.W.Founder}, g.W.Users...)
+	if g.DeputiesAct {
+		for _, d := range g.W.Deputies {
+			res = append(res, d.Miner, d.Income)
+		}
+	}
+	return res
 }
 
 func (g *TxGen) anyActor(t *rapid.T, label string) *Actor {
@@ -123,7 +130,7 @@ func (g *TxGen) amount(t *rapid.T, balance *big.Int) *big.Int {
 // timestamp the block will carry.
 func (g *TxGen) Draw(t *rapid.T, view *account.Manager, blockTime uint32) *GenTx {
 	w := g.Weights
-	total := w.Transfer + w.Contract + w.Vote + w.Candidate + w.Asset + w.Multisig + w.Box + w.GasPayer + w.Decoy
+	total := w.Transfer + w.Contract + w.Vote + w.Candidate + w.Asset + w.Multisig + w.Box + w.GasPayer + w.Decoy + w.Reward
 	x := rapid.IntRange(0, total-1).Draw(t, "rule")
 	exp := uint64(blockTime) + uint64(rapid.SampledFrom([]int{0, 1, 600, 1799, 1800}).Draw(t, "expOffset"))
 	pick := func(n int) bool {
@@ -150,6 +157,8 @@ func (g *TxGen) Draw(t *rapid.T, view *account.Manager, blockTime uint32) *GenTx
 		return g.box(t, view, blockTime, exp)
 	case pick(w.GasPayer):
 		return g.gasPayer(t, view, exp)
+	case pick(w.Reward):
+		return g.reward(t, exp)
 	default:
 		return g.decoy(t, view, blockTime)
 	}
@@ -401,6 +410,17 @@ func (g *TxGen) gasPayer(t *rapid.T, view *account.Manager, exp uint64) *GenTx {
 	tx := TxSpec{Type: params.OrdinaryTx, From: from.Addr, To: &to, Amount: amt, Exp: exp, GasPayer: &payer.Addr, Message: g.next()}.Build()
 	tx = SignReimbursed(tx, g.keysFor(from), GasPrice, 50000, g.keysFor(payer))
 	return &GenTx{Tx: tx, Kind: "gas-payer", Note: fmt.Sprintf("%s -> %s %v paid by %s", from.Name, to.Hex()[34:], amt, payer.Name)}
+}
+
+// reward: the founder sets the term reward through the precompiled contract 0x09.
+func (g *TxGen) reward(t *rapid.T, exp uint64) *GenTx {
+	term := rapid.IntRange(0, 2).Draw(t, "rewardTerm")
+	val := Lemo(int64(rapid.SampledFrom([]int{0, 1, 7, 450, 1000, 999999}).Draw(t, "rewardValue")))
+	val.Add(val, big.NewInt(int64(rapid.IntRange(0, 5).Draw(t, "rewardDust"))))
+	to := params.TermRewardContract
+	data := []byte(fmt.Sprintf(`{"term":"%d","value":"%s"}`, term, val))
+	tx := Sign(TxSpec{Type: params.OrdinaryTx, From: g.W.Founder.Addr, To: &to, GasLimit: 500000, Data: data, Exp: exp, Message: g.next()}.Build(), g.W.Founder.Key)
+	return &GenTx{Tx: tx, Kind: "set-reward", Note: fmt.Sprintf("term %d value %v", term, val)}
 }
 
 // decoy builds a transaction an honest miner must discard.
